@@ -89,6 +89,28 @@ def check_policy(ctx: Ctx, backend: str, name: str, cfg: dict, pol: dict, parts)
                f"space is written as '+' in a {role}, where '+' does not mean space", sample="'+' for space only in queries")
 
 
+def check_fixpoint(ctx: Ctx, backend: str, pols: dict):
+    """What the non-requoting quoter of a component writes must be stable under that component's requoter (the canonical
+    string is parsed again through the requoters): a character the quoter escapes must not be one whose escape the requoter
+    decodes, and a character the quoter leaves literal must not be one the requoter escapes."""
+    rule = "T-fix"
+    ctx.rule(rule, floor=3, what="quoter output is a fixed point of the same component's requoter")
+    pairs = [("QUOTER", "REQUOTER"), ("PATH_QUOTER", "PATH_REQUOTER"), ("QUERY_QUOTER", "QUERY_REQUOTER"),
+             ("FRAGMENT_QUOTER", "FRAGMENT_REQUOTER"), ("QUERY_PART_QUOTER", "QUERY_REQUOTER")]
+    for qn, rn in pairs:
+        if qn not in pols or rn not in pols:
+            continue
+        q, r = pols[qn], pols[rn]
+        ctx.instance(rule)
+        ascii_chars = {chr(i) for i in range(0x21, 0x7F)}
+        escaped_by_q = ascii_chars - q["literal"]
+        decoded_back = sorted(escaped_by_q & r["decodable"])
+        re_escaped = sorted((q["literal"] & ascii_chars) - r["literal"])
+        ctx.ob(rule, f"_quoters.{qn}/{rn}[{backend}]", f"{qn} output under {rn}", not decoded_back and not re_escaped,
+               f"{qn} escapes {s(set(decoded_back))!r} but {rn} decodes those escapes, and leaves {s(set(re_escaped))!r} literal although "
+               f"{rn} escapes them: str(url) is not a fixed point of parsing", sample="escaped stays escaped, literal stays literal")
+
+
 def check_siblings(ctx: Ctx, name, cfg, py, cy):
     ctx.instance("T7")
     diffs = []
